@@ -278,6 +278,10 @@ class AST:
                 if f is None or n.get('kind', '').endswith('Stmt') or n.get('kind', '').endswith('Expr') or n.get('kind', '').endswith('Operator'):
                     f, l = rb
             n['_file'] = f; n['_line'] = l
+            if n.get('kind') == 'InitListExpr' and n.get('array_filler') and not n.get('inner'):
+                # clang JSON quirk: when an array InitListExpr has a filler, the filler AND the explicit elements are
+                # all emitted under the key 'array_filler' (filler first) and there is no 'inner'
+                n['inner'] = list(n['array_filler'][1:])
             i = n.get('id')
             if i is not None:
                 old = byid.get(i)
@@ -1014,8 +1018,31 @@ class Translator:
             if c.get('kind') == 'CompoundStmt': return c
         return None
 
+    def _trivial_implicit_assign(self, decl, depth=0):
+        """implicit (compiler-synthesised) operator= whose body is only __builtin_memcpy of array members, built-in member
+        assignments and trivial implicit operator= of members/bases  ==  a plain struct copy in C"""
+        if not decl.get('isImplicit') or decl.get('name') != 'operator=' or depth > 8: return False
+        body = self.body_of(decl)
+        if body is None: return False
+        for s in body.get('inner', []) or []:
+            k = s.get('kind')
+            if k == 'ReturnStmt': continue
+            if k == 'BinaryOperator' and s.get('opcode') == '=': continue
+            if k == 'CallExpr':
+                c, _ = self.callee_decl(s['inner'][0])
+                if c is not None and c.get('name') == '__builtin_memcpy': continue
+                return False
+            if k in ('CXXOperatorCallExpr', 'CXXMemberCallExpr'):
+                c, _ = self.callee_decl(s['inner'][0])
+                if c is not None and self.body_of(c) is not None and self._trivial_implicit_assign(c, depth + 1): continue
+                return False
+            return False
+        return True
+
     def find_definition(self, decl):
-        if self.body_of(decl) is not None: return decl
+        if self.body_of(decl) is not None:
+            if decl.get('isImplicit') and self._trivial_implicit_assign(decl): return None
+            return decl
         # explicitly defaulted / implicit members have no body
         mn = decl.get('mangledName')
         if mn:
@@ -1170,6 +1197,7 @@ class Translator:
         self.fn_text[decl['id']] = '\n'.join(text)
         self.fn_meta[cname] = {'qualname': norm_type_string(self.ast.qualname(decl)), 'file': decl.get('_file'), 'line': decl.get('_line'),
                                'loops': fctx.loops, 'mangled': decl.get('mangledName'), 'has_spec': spec is not None,
+                               'contract_loops': sorted(spec.loops.keys()) if spec is not None else [],
                                'params': pinfo, 'ret': ret.decl(), 'ret_decl': ret.decl('$'), 'ret_ref': fctx.ret_ref}
 
     def _first_return(self, body):
@@ -1256,8 +1284,21 @@ class Translator:
         unknown = []
         stack = [body]
         refd = set()
+        # holding variables of tuple-like structured bindings declared inside the body are also undumped VarDecls,
+        # but they are locals (see decomp_decl / hidden_vars), not init-captures
+        sb_hidden = set()
+        st2 = [body]
+        while st2:
+            x = st2.pop()
+            if x.get('kind') == 'BindingDecl':
+                for y in x.get('inner', []) or []:
+                    if y.get('kind') == 'DeclRefExpr' and y.get('referencedDecl', {}).get('kind') == 'VarDecl':
+                        sb_hidden.add(y['referencedDecl'].get('id'))
+            st2.extend(x.get('inner', []) or [])
         while stack:
             x = stack.pop()
+            if x.get('kind') == 'DeclRefExpr' and x.get('referencedDecl', {}).get('id') in sb_hidden:
+                continue
             if x.get('kind') == 'DeclRefExpr':
                 r = x.get('referencedDecl', {})
                 refd.add(r.get('id'))
